@@ -592,6 +592,15 @@ class Interp:
             nv = self.arith(op[0], cur, r, g)
             pl.set(g, nv)
             return UNIT
+        if op in ("|=", "&=", "^="):
+            pl = self.place(e["left"], scope, frame, g)
+            cur = self.deref(pl.get())
+            r = self.deref(self.eval(e["right"], scope, frame, g))
+            if not (isinstance(cur, BoolV) and isinstance(r, BoolV)):
+                raise Unsupported("compound assignment %s on non-boolean operands" % op)
+            nl = c.or2(cur.l, r.l) if op == "|=" else c.and2(cur.l, r.l) if op == "&=" else -c.iff(cur.l, r.l)
+            pl.set(g, mkbool(nl))
+            return UNIT
         a = self.deref(self.eval(e["left"], scope, frame, g))
         b = self.deref(self.eval(e["right"], scope, frame, g))
         if op in ("==", "!="):
@@ -609,8 +618,8 @@ class Interp:
             return mkbool(r)
         if op in ("+", "-", "*"):
             return self.arith(op, a, b, g)
-        if op in ("|", "&") and isinstance(a, BoolV):
-            return mkbool(c.or2(a.l, b.l) if op == "|" else c.and2(a.l, b.l))
+        if op in ("|", "&", "^") and isinstance(a, BoolV) and isinstance(b, BoolV):
+            return mkbool(c.or2(a.l, b.l) if op == "|" else c.and2(a.l, b.l) if op == "&" else -c.iff(a.l, b.l))
         raise Unsupported("binary operator " + op)
 
     def arith(self, op, a, b, g):
